@@ -16,6 +16,7 @@ import (
 	"strconv"
 	"strings"
 	"sync"
+	"sync/atomic"
 	"syscall"
 	"testing"
 	"time"
@@ -61,24 +62,30 @@ var fileOps = []string{"f.read", "f.readat", "f.write", "f.writeat", "f.seek", "
 func kindsFor(op string) []string {
 	switch op {
 	case "mkdir", "mkdirall":
-		return []string{"noop", "twice", "drop", "wrongperm", "wrongerr", "wrongpath"}
+		return []string{"noop", "twice", "drop", "wrongperm", "wrongerr", "wrongpath", "overlap"}
 	case "openfile":
-		return []string{"drop", "wrongperm", "wrongerr", "wrongpath", "notrunc"}
+		return []string{"drop", "wrongperm", "wrongerr", "wrongpath", "notrunc", "overlap"}
 	case "open":
 		return []string{"wrongerr", "wrongpath"}
 	case "remove":
-		return []string{"noop", "wrongerr", "weakerr", "wrongpath"}
+		return []string{"noop", "wrongerr", "weakerr", "wrongpath", "overlap"}
 	case "rename":
 		return []string{"noop", "leavebehind", "wrongerr", "weakerr", "wrongpath"}
-	case "stat", "f.stat":
+	case "stat":
 		return []string{"wrongsize", "wrongperm", "wrongerr", "wrongname"}
+	case "f.stat":
+		return []string{"wrongsize", "wrongperm", "wrongerr", "wrongname", "overlap"}
 	case "chmod":
 		return []string{"noop", "wrongperm", "wrongerr"}
 	case "chtimes":
 		return []string{"noop", "wrongerr"}
-	case "f.read", "f.readat":
+	case "f.read":
+		return []string{"wrongbytes", "earlyeof", "wrongn", "wrongerr", "overlap"}
+	case "f.readat":
 		return []string{"wrongbytes", "earlyeof", "wrongn", "wrongerr"}
-	case "f.write", "f.writeat":
+	case "f.write":
+		return []string{"noop", "twice", "wrongbytes", "wrongn", "wrongerr", "overlap"}
+	case "f.writeat":
 		return []string{"noop", "twice", "wrongbytes", "wrongn", "wrongerr"}
 	case "f.seek":
 		return []string{"noop", "wrongn", "wrongerr"}
@@ -112,6 +119,11 @@ func allSpecs(trigs []string) []spec {
 	var out []spec
 	for _, op := range append(append([]string{}, fsOps...), fileOps...) {
 		for _, k := range kindsFor(op) {
+			if k == "overlap" {
+				// deviates only while another call of the same operation on the same file system is in flight
+				out = append(out, spec{op, k, "always"})
+				continue
+			}
 			for _, tr := range trigs {
 				out = append(out, spec{op, k, tr})
 			}
@@ -208,6 +220,24 @@ type devFS struct {
 	scenario string
 	mu       sync.Mutex
 	counts   map[string]int
+	inflight int32
+}
+
+// enter implements the "overlap" deviation: every call of the deviant's operation is held for a moment; if another call
+// of the same operation on the same file system is in flight meanwhile, the call fails with ErrPermission instead of
+// being carried out. Sequential use is indistinguishable from the reference; only scenarios whose goroutines really run
+// at the same time see it.
+func (d *devFS) enter(op, name string) (deviate error, leave func()) {
+	if d.sp.Kind != "overlap" || d.sp.Op != op {
+		return nil, func() {}
+	}
+	n := atomic.AddInt32(&d.inflight, 1)
+	time.Sleep(4 * time.Millisecond)
+	leave = func() { atomic.AddInt32(&d.inflight, -1) }
+	if n > 1 || atomic.LoadInt32(&d.inflight) > 1 {
+		return &hackpadfs.PathError{Op: strings.TrimPrefix(op, "f."), Path: name, Err: hackpadfs.ErrPermission}, leave
+	}
+	return nil, leave
 }
 
 func errStr(err error) string {
@@ -351,6 +381,12 @@ func (d *devFS) Open(name string) (hackpadfs.File, error) {
 }
 
 func (d *devFS) OpenFile(name string, flag int, perm hackpadfs.FileMode) (hackpadfs.File, error) {
+	dev, leave := d.enter("openfile", name)
+	defer leave()
+	if dev != nil {
+		record(d.scenario, fmt.Sprintf("OpenFile(%q,%#x,%v)=%s", name, flag, perm, errStr(dev)))
+		return nil, dev
+	}
 	fire := d.fires("openfile", name, flagClasses(flag)...)
 	if fire && d.sp.Kind == "wrongperm" {
 		perm ^= 0o111
@@ -379,6 +415,12 @@ func (d *devFS) OpenFile(name string, flag int, perm hackpadfs.FileMode) (hackpa
 }
 
 func (d *devFS) mkdirLike(op, name string, perm hackpadfs.FileMode, call func(string, hackpadfs.FileMode) error) error {
+	dev, leave := d.enter(op, name)
+	defer leave()
+	if dev != nil {
+		record(d.scenario, fmt.Sprintf("%s(%q,%v)=%s", op, name, perm, errStr(dev)))
+		return dev
+	}
 	fire := d.fires(op, name)
 	var err error
 	switch {
@@ -417,6 +459,12 @@ func (d *devFS) MkdirAll(name string, perm hackpadfs.FileMode) error {
 }
 
 func (d *devFS) Remove(name string) error {
+	dev, leave := d.enter("remove", name)
+	defer leave()
+	if dev != nil {
+		record(d.scenario, fmt.Sprintf("Remove(%q)=%s", name, errStr(dev)))
+		return dev
+	}
 	fire := d.fires("remove", name)
 	var err error
 	if fire && d.sp.Kind == "noop" {
@@ -564,6 +612,12 @@ type devFile struct {
 func (f *devFile) rec(format string, args ...any) { record(f.d.scenario, fmt.Sprintf(format, args...)) }
 
 func (f *devFile) Stat() (hackpadfs.FileInfo, error) {
+	dev, leave := f.d.enter("f.stat", f.name)
+	defer leave()
+	if dev != nil {
+		f.rec("f.Stat(%q)=%s,%s", f.name, "nil", errStr(dev))
+		return nil, dev
+	}
 	fi, err := f.inner.Stat()
 	if f.d.fires("f.stat", f.name) {
 		fi, err = deviateInfo(f.d.sp.Kind, fi, err)
@@ -576,6 +630,12 @@ func (f *devFile) Stat() (hackpadfs.FileInfo, error) {
 }
 
 func (f *devFile) readLike(op string, p []byte, args []string, call func([]byte) (int, error)) (int, error) {
+	dev, leave := f.d.enter(op, f.name)
+	defer leave()
+	if dev != nil {
+		f.rec("%s(%q,%d)=%d,%q,%s", op, f.name, len(p), 0, "", errStr(dev))
+		return 0, dev
+	}
 	n, err := call(p)
 	if f.d.fires(op, f.name, args...) {
 		switch f.d.sp.Kind {
@@ -608,6 +668,12 @@ func (f *devFile) ReadAt(p []byte, off int64) (int, error) {
 }
 
 func (f *devFile) writeLike(op string, p []byte, args []string, call func([]byte) (int, error)) (int, error) {
+	dev, leave := f.d.enter(op, f.name)
+	defer leave()
+	if dev != nil {
+		f.rec("%s(%q,%q)=%d,%s", op, f.name, p, 0, errStr(dev))
+		return 0, dev
+	}
 	fire := f.d.fires(op, f.name, args...)
 	var n int
 	var err error
@@ -930,6 +996,15 @@ func judgeSpec(sp spec) verdict {
 	det, conc := diffScenarios(ref.traces, r.traces)
 	v := verdict{Spec: sp.String(), ExitCode: r.exit, Differs: det}
 	switch {
+	case sp.Kind == "overlap" && len(det)+len(conc) > 0:
+		// the deviation exists only while calls overlap (and every call is held for a moment, so overlapping goroutines
+		// do overlap): here the concurrent scenarios are the ones that count
+		v.Differs = append(append([]string{}, det...), conc...)
+		if r.exit != 0 {
+			v.Class = "killed"
+		} else {
+			v.Class = "survivor"
+		}
 	case len(det) == 0 && len(conc) == 0:
 		v.Class = "trivial"
 	case len(det) == 0 && (strings.HasPrefix(sp.Trigger, "k") || !onlyReadAt(conc)):
